@@ -2,6 +2,7 @@ import Rfsm.Audit
 import Rfsm.Model.ReaderSpec
 import Rfsm.Proofs.ReaderTop
 import Rfsm.Proofs.ReaderStatesSim
+import Rfsm.Proofs.ReaderKids
 /-!
 # C04 — The XML reader builds a model that mirrors the SCXML document
 
@@ -110,6 +111,51 @@ theorem C04_state_nesting (ts : List ST) (hnd : (namesF ts).Nodup) :
   rw [hv, hdoc] at *
   exact hg
 #assert_axioms C04_state_nesting
+
+/-- **Children lists.**  Same setting (any forest of states with distinct ids, none of them the
+generated name `__id1` of the `<scxml>` element, arbitrary references): in the table the reader
+builds, the `states` list of the `<scxml>` pseudo root is the list of the ids of the top-level
+states and (`KidsF`) the `states` list of every state of the forest is the list of the ids of its
+child states, in document order — although ids are allocated in order of first reference. -/
+theorem C04_state_children (ts : List ST) (hnd : (namesF ts).Nodup)
+    (hroot : [95, 95, 105, 100, 49] ∉ namesF ts) :
+    ∃ σ' root, run ([.start t_scxml []] ++ saxSF ts) {} = .ok σ' ∧ vget (view σ'.fsm) 1 = some root ∧
+      root.kids = ts.map (fun t => idOf (view σ'.fsm) t.name) ∧ KidsF (view σ'.fsm) [1] ts := by
+  obtain ⟨hrun, hraw, htag, hcur, hnid, hdoc, hview⟩ := σscxml_facts_aux
+  have hok : IdsOk (view σscxml.fsm) := by
+    rw [hview]
+    intro k v hk
+    cases k with
+    | zero => simp at hk; subst hk; rfl
+    | succ k => simp at hk
+  have hSR : SR σscxml 1 :=
+    ⟨hraw, Or.inl htag, hcur, by decide, hok, by rw [hview]; decide, by rw [hnid]; decide⟩
+  obtain ⟨σ', hs, _, _, _, _, hv, _⟩ := simF ts σscxml 1 hSR hnd
+  have hget1 : vget (view σscxml.fsm) 1 = some ⟨1, [95, 95, 105, 100, 49], 0, 1, []⟩ := by rw [hview]; rfl
+  have hinv : KInv (view σscxml.fsm) := by
+    refine ⟨hok, ?_, ?_⟩ <;> rw [hview]
+    · intro j v hj hd
+      cases j with
+      | zero => simp [vget] at hj
+      | succ j => cases j <;> simp [vget] at hj; subst hj; simp at hd
+    · intro j v k hj hk
+      cases j with
+      | zero => simp [vget] at hj
+      | succ j => cases j <;> simp [vget] at hj; subst hj; simp at hk
+  have hund : ∀ n ∈ namesF ts, Undecl (view σscxml.fsm) n := by
+    intro n hn i v hf _
+    rw [hview] at hf
+    simp only [vfind] at hf
+    split at hf
+    · rename_i e; exact absurd (e ▸ hn) hroot
+    · simp at hf
+  have hP := amF_kids ts 1 (view σscxml.fsm) σscxml.nextDoc [1] _ hinv (by rw [hdoc]; decide) hget1 (by decide)
+    (by simp) (by intro q hq; simp at hq; subst hq; exact ⟨_, hget1, by decide⟩) hnd hund
+  obtain ⟨root, hr, hk, _⟩ := hP.par
+  rw [← hv] at hr hk
+  refine ⟨σ', root, by rw [run_append, hrun]; exact hs, hr, by simpa using hk, ?_⟩
+  rw [hv]; exact hP.good
+#assert_axioms C04_state_children
 
 /-- non-vacuity: a forest with a forward reference (`a` targets `c`, declared later inside `b`) and a
 backward one satisfies the hypothesis; the state ids are allocated in reference order (a=2, c=3,
